@@ -140,23 +140,33 @@ def c_power(ctx, case):
     ctx.count("power_calls")
     ctx.count("monoid:" + name)
     if n < 0:
-        try:
-            r = integer_power(x, n, one_f())
-        except (RuntimeError, ValueError, AssertionError):
-            ctx.count("negative_refused")
-            return
-        except Exception as ex:  # noqa: BLE001
-            ctx.fail("C19.power", case, f"negative:{type(ex).__name__}",
-                     f"integer_power({x!r}, {n}) raised {type(ex).__name__} (expected a refusal)")
-            return
-        ctx.fail("C19.power", case, "negative-accepted", f"integer_power({x!r}, {n}) returned {r!r}")
+        one = one_f()
+        # (the identity element itself as the base -- the very object passed as `one`, and the
+        #  default one=1 with the base 1 -- is a base like any other)
+        for label, call in (("x", lambda: integer_power(x, n, one)),
+                            ("identity-object-as-base", lambda: integer_power(one, n, one)),
+                            ("base-1-default-one", lambda: integer_power(1, n))):
+            try:
+                r = call()
+            except (RuntimeError, ValueError, AssertionError):
+                ctx.count("negative_refused")
+                continue
+            except Exception as ex:  # noqa: BLE001
+                ctx.fail("C19.power", case, f"negative:{type(ex).__name__}",
+                         f"integer_power({x!r}, {n}) [{label}] raised {type(ex).__name__} "
+                         f"(expected a refusal)")
+                continue
+            ctx.fail("C19.power", case, f"negative-accepted:{label}",
+                     f"integer_power with base {label} ({x!r} / one={one!r}), n={n} returned {r!r}")
         return
     want = one_f()
     for _ in range(n):
         want = want * x
     before = keyof(x)
+    one = one_f()
+    one_before = keyof(one)
     try:
-        got = integer_power(x, n, one_f())
+        got = integer_power(x, n, one)
     except Exception as ex:  # noqa: BLE001
         ctx.fail("C19.power", case, f"raised:{name}:{type(ex).__name__}",
                  f"integer_power({x!r}, {n}) raised {type(ex).__name__}: {ex}")
@@ -164,6 +174,11 @@ def c_power(ctx, case):
     if keyof(x) != before:
         ctx.fail("C19.power", case, f"operand-modified:{name}",
                  f"integer_power(x, {n}) changed its operand from {before} to {keyof(x)}")
+        return
+    if keyof(one) != one_before:
+        ctx.fail("C19.power", case, f"identity-modified:{name}",
+                 f"integer_power({before}, {n}, one) changed the caller's identity element from "
+                 f"{one_before} to {keyof(one)} (the next call with the same object starts from it)")
         return
     if type(got) is not type(want) or keyof(got) != keyof(want):
         ctx.fail("C19.power", case, f"value:{name}:n={'0' if n == 0 else '1' if n == 1 else 'k'}",
